@@ -217,6 +217,22 @@ pub fn render_frag(r: &R, fr: FnRef, sel: &str, header: &str) -> Result<(String,
     }
     let mut lets: Vec<String> = vec![];
     let frag: &Expr = match kind {
+        "receiver" => {
+            // receiver <method>#<n> : the receiver of the n-th call of that method (source order) — what a fold / map / filter
+            // at the end of a chain iterates over
+            let (callee, ord) = parse_ord(rest); let callee = callee.replace('~', "::");
+            let mut cf = CallFinder { name: callee.clone(), hits: vec![] };
+            cf.visit_block(block);
+            cf.hits.sort_by_key(|e| match e {
+                Expr::MethodCall(m) => m.method.span().byte_range().start,
+                Expr::Call(c) => c.func.span().byte_range().end,
+                _ => 0,
+            });
+            match cf.hits.get(ord) {
+                Some(Expr::MethodCall(m)) => &*m.receiver,
+                _ => return Err(format!("lost anchor: method call `{}`#{} not found ({} hits)", callee, ord, cf.hits.len())),
+            }
+        }
         "closure" | "callarg" => {
             // closure <callee>#<n>/<arg>
             let (callee_ord, arg) = rest.rsplit_once('/').ok_or("bad closure selector")?;
